@@ -14,7 +14,7 @@ from mc import common, cache, fsx
 from mc.common import Stats
 
 DEFS = [('A', 'def'), ('A2', 'def'), ('B', 'def'), ('C', 'def'), ('V', 'def'), ('A', 'noann'), ('A2', 'noann'), ('A', 'novec'),
-        ('C', 'novec'), ('A', 'off'), ('A2', 'uonly')]
+        ('C', 'novec'), ('A', 'off'), ('A2', 'uonly'), ('B', 'ponly')]
 CTRL = [('newproc',), ('tick',), ('forget',), ('bytecode',)]
 CLOCK0 = 1500000000
 
